@@ -170,9 +170,15 @@ structure Core (s : St) : Prop where
   an : s.rAct ≤ s.now ∧ s.wAct ≤ s.now ∧ s.hAct ≤ s.now
   /-- the write task knows every remote that is still attached -/
   sub : ∀ r, r ∈ s.attached → r ∈ s.wRemotes
+  /-- a running timer expires at most a timeout from now -/
+  dr : s.rBusy = false → s.rDl ≤ s.now + s.T
+  dh : s.hBusy = false → s.hDl ≤ s.now + s.T
+  dw : s.wEnabled = true → s.wDl ≤ s.now + s.T
+  /-- the write task's timer is disabled only while its vote is cast -/
+  ew : s.wVoted = false → s.wEnabled = true
 
 theorem core_init (T : Nat) : Core (init T) := by
-  refine ⟨cidle_init, rfl, ?_, ?_, ?_, ?_, ?_, ?_, ?_, ?_, ?_, ?_, ?_, ?_, ?_⟩ <;>
+  refine ⟨cidle_init, rfl, ?_, ?_, ?_, ?_, ?_, ?_, ?_, ?_, ?_, ?_, ?_, ?_, ?_, ?_, ?_, ?_, ?_⟩ <;>
     simp [init, Coord.votedAt_replicate]
 
 /-! plain updates -/
@@ -216,25 +222,30 @@ theorem core_setNow {s : St} (h : Core s) (t : Nat) : Core (setNow s t) :=
     wa := fun hv => Nat.le_trans (h.wa hv) (Nat.le_max_left _ _)
     ha := fun hv => Nat.le_trans (h.ha hv) (Nat.le_max_left _ _)
     an := ⟨Nat.le_trans h.an.1 (Nat.le_max_left _ _), Nat.le_trans h.an.2.1 (Nat.le_max_left _ _),
-           Nat.le_trans h.an.2.2 (Nat.le_max_left _ _)⟩ }
+           Nat.le_trans h.an.2.2 (Nat.le_max_left _ _)⟩
+    dr := fun hb => Nat.le_trans (h.dr hb) (Nat.add_le_add_right (Nat.le_max_left _ _) _)
+    dh := fun hb => Nat.le_trans (h.dh hb) (Nat.add_le_add_right (Nat.le_max_left _ _) _)
+    dw := fun hb => Nat.le_trans (h.dw hb) (Nat.add_le_add_right (Nat.le_max_left _ _) _) }
 
 /-! timers -/
 
 theorem core_readRearm {s : St} (h : Core s) : Core (readRearm s) :=
-  { h with rd := fun _ => Nat.add_le_add_right h.an.1 _ }
+  { h with rd := fun _ => Nat.add_le_add_right h.an.1 _, dr := fun _ => Nat.le_refl _ }
 theorem core_httpRearm {s : St} (h : Core s) : Core (httpRearm s) :=
-  { h with hd := fun _ => Nat.add_le_add_right h.an.2.2 _ }
+  { h with hd := fun _ => Nat.add_le_add_right h.an.2.2 _, dh := fun _ => Nat.le_refl _ }
 theorem core_writeReset {s : St} (h : Core s) : Core (writeReset s) :=
-  { h with wd := fun _ => Nat.add_le_add_right h.an.2.1 _ }
+  { h with wd := fun _ => Nat.add_le_add_right h.an.2.1 _, dw := fun _ => Nat.le_refl _ }
 
 theorem core_readBlock {s : St} (h : Core s) (l : Nat) (hv : s.rVoted = false) : Core (readBlock s l) :=
-  { h with rb := fun _ => hv, rd := fun hb => by simp [readBlock] at hb }
+  { h with rb := fun _ => hv, rd := fun hb => by simp [readBlock] at hb, dr := fun hb => by simp [readBlock] at hb }
 theorem core_readUnblock {s : St} (h : Core s) : Core (readUnblock s) :=
-  { h with rb := fun hb => by simp [readUnblock, readRearm] at hb, rd := fun _ => Nat.add_le_add_right h.an.1 _ }
+  { h with rb := fun hb => by simp [readUnblock, readRearm] at hb, rd := fun _ => Nat.add_le_add_right h.an.1 _,
+           dr := fun _ => Nat.le_refl _ }
 theorem core_httpBlock {s : St} (h : Core s) (hv : s.hVoted = false) : Core (httpBlock s) :=
-  { h with hb := fun _ => hv, hd := fun hb => by simp [httpBlock] at hb }
+  { h with hb := fun _ => hv, hd := fun hb => by simp [httpBlock] at hb, dh := fun hb => by simp [httpBlock] at hb }
 theorem core_httpUnblock {s : St} (h : Core s) : Core (httpUnblock s) :=
-  { h with hb := fun hb => by simp [httpUnblock, httpRearm] at hb, hd := fun _ => Nat.add_le_add_right h.an.2.2 _ }
+  { h with hb := fun hb => by simp [httpUnblock, httpRearm] at hb, hd := fun _ => Nat.add_le_add_right h.an.2.2 _,
+           dh := fun _ => Nat.le_refl _ }
 
 /-! votes and rescinds -/
 
@@ -261,7 +272,7 @@ theorem core_rescindAs_told {s : St} (h : Core s) {i : Nat} (hi : i < 3) (ht : r
     show (Coord.apiRescind s.coord i).1 = Coord.run (Coord.init 3) (s.cevs ++ rescindEvs s.coord i)
     rw [run_append, ← h.cr, apiRescind_run]
   have hcc : (rescindAs s i).coord = s.coord := hc
-  refine ⟨⟨hcc ▸ h.c, hcr, hcc ▸ h.vr, hcc ▸ h.vw, hcc ▸ h.vh, h.rb, h.hb, h.ra, h.wa, h.ha, h.rd, h.wd, h.hd, h.an, h.sub⟩, hcc⟩
+  refine ⟨⟨hcc ▸ h.c, hcr, hcc ▸ h.vr, hcc ▸ h.vw, hcc ▸ h.vh, h.rb, h.hb, h.ra, h.wa, h.ha, h.rd, h.wd, h.hd, h.an, h.sub, h.dr, h.dh, h.dw, h.ew⟩, hcc⟩
 
 /-- a `rescind` that is told `UnanimityPending`: the party's vote is gone, the others' are untouched -/
 theorem rescindAs_pending {s : St} (h : Core s) {i : Nat} (hi : i < 3) (ht : rescindTold s i = false) :
@@ -285,7 +296,8 @@ theorem core_readRescind {s : St} (h : Core s) :
     · rw [if_neg ht]
       have ht' : rescindTold s READ = false := by simpa using ht
       obtain ⟨hc, hcr, h0, hoth⟩ := rescindAs_pending h (i := READ) (by decide) ht'
-      refine ⟨⟨hc, hcr, h0, ?_, ?_, fun _ => rfl, h.hb, fun hh => by simp at hh, h.wa, h.ha, ?_, h.wd, h.hd, ?_, h.sub⟩, fun _ => rfl⟩
+      refine ⟨⟨hc, hcr, h0, ?_, ?_, fun _ => rfl, h.hb, fun hh => by simp at hh, h.wa, h.ha, ?_, h.wd, h.hd, ?_, h.sub,
+        fun _ => Nat.le_refl _, h.dh, h.dw, h.ew⟩, fun _ => rfl⟩
       · exact (hoth 1 (by decide)).trans h.vw
       · exact (hoth 2 (by decide)).trans h.vh
       · intro _; exact Nat.le_refl _
@@ -293,7 +305,7 @@ theorem core_readRescind {s : St} (h : Core s) :
   · rw [if_neg hv]
     have hv' : s.rVoted = false := by simpa using hv
     refine ⟨{ h with ra := fun hh => by simp [hv'] at hh, rd := fun _ => Nat.le_refl _,
-                     an := ⟨Nat.le_refl _, h.an.2.1, h.an.2.2⟩ }, fun _ => hv'⟩
+                     an := ⟨Nat.le_refl _, h.an.2.1, h.an.2.2⟩, dr := fun _ => Nat.le_refl _ }, fun _ => hv'⟩
 
 theorem core_httpRescind {s : St} (h : Core s) :
     Core (httpRescind s).1 ∧ ((httpRescind s).2 = false → (httpRescind s).1.hVoted = false) := by
@@ -305,7 +317,8 @@ theorem core_httpRescind {s : St} (h : Core s) :
     · rw [if_neg ht]
       have ht' : rescindTold s HTTP = false := by simpa using ht
       obtain ⟨hc, hcr, h0, hoth⟩ := rescindAs_pending h (i := HTTP) (by decide) ht'
-      refine ⟨⟨hc, hcr, ?_, ?_, h0, h.rb, fun _ => rfl, h.ra, h.wa, fun hh => by simp at hh, h.rd, h.wd, ?_, ?_, h.sub⟩, fun _ => rfl⟩
+      refine ⟨⟨hc, hcr, ?_, ?_, h0, h.rb, fun _ => rfl, h.ra, h.wa, fun hh => by simp at hh, h.rd, h.wd, ?_, ?_, h.sub,
+        h.dr, fun _ => Nat.le_refl _, h.dw, h.ew⟩, fun _ => rfl⟩
       · exact (hoth 0 (by decide)).trans h.vr
       · exact (hoth 1 (by decide)).trans h.vw
       · intro _; exact Nat.le_refl _
@@ -313,7 +326,7 @@ theorem core_httpRescind {s : St} (h : Core s) :
   · rw [if_neg hv]
     have hv' : s.hVoted = false := by simpa using hv
     refine ⟨{ h with ha := fun hh => by simp [hv'] at hh, hd := fun _ => Nat.le_refl _,
-                     an := ⟨h.an.1, h.an.2.1, Nat.le_refl _⟩ }, fun _ => hv'⟩
+                     an := ⟨h.an.1, h.an.2.1, Nat.le_refl _⟩, dh := fun _ => Nat.le_refl _ }, fun _ => hv'⟩
 
 theorem core_writeAct {s : St} (h : Core s) : Core (writeAct s) := by
   have hw := core_writeReset h
@@ -328,7 +341,8 @@ theorem core_writeAct {s : St} (h : Core s) : Core (writeAct s) := by
     · rw [if_neg ht]
       have ht' : rescindTold s1 WRITE = false := by simpa using ht
       obtain ⟨hc, hcr, h0, hoth⟩ := rescindAs_pending hw (i := WRITE) (by decide) ht'
-      refine ⟨hc, hcr, ?_, h0, ?_, hw.rb, hw.hb, hw.ra, fun hh => by simp at hh, hw.ha, hw.rd, ?_, hw.hd, ?_, hw.sub⟩
+      refine ⟨hc, hcr, ?_, h0, ?_, hw.rb, hw.hb, hw.ra, fun hh => by simp at hh, hw.ha, hw.rd, ?_, hw.hd, ?_, hw.sub,
+        hw.dr, hw.dh, fun _ => Nat.le_of_eq hdl, fun _ => rfl⟩
       · exact (hoth 0 (by decide)).trans hw.vr
       · exact (hoth 2 (by decide)).trans hw.vh
       · intro _; exact Nat.le_of_eq hdl.symm
@@ -351,7 +365,8 @@ theorem core_fireRead {s : St} (h : Core s) (hb : s.rBusy = false) : Core (fireR
   have h1 : Core { s with now := max s.now s.rDl } := core_setNow h s.rDl
   obtain ⟨hc, hcr, hv⟩ := voteAs_facts h1 (i := READ) (by decide)
   have hrd := h.rd hb
-  refine ⟨hc, hcr, ?_, ?_, ?_, fun hh => by simp [fireRead, voteAs, hb] at hh, h.hb, ?_, h1.wa, h1.ha, ?_, h.wd, h.hd, h1.an, h.sub⟩
+  refine ⟨hc, hcr, ?_, ?_, ?_, fun hh => by simp [fireRead, voteAs, hb] at hh, h.hb, ?_, h1.wa, h1.ha, ?_, h.wd, h.hd, h1.an, h.sub,
+    fun _ => Nat.le_refl _, h1.dh, h1.dw, h.ew⟩
   · exact hv 0
   · exact (hv 1).trans h.vw
   · exact (hv 2).trans h.vh
@@ -364,10 +379,12 @@ theorem core_fireHttp {s : St} (h : Core s) (hb : s.hBusy = false) : Core (fireH
   unfold fireHttp
   by_cases hvt : s.hVoted = true
   · rw [if_pos hvt]
-    exact { h1 with hd := fun _ => by show s.hAct + s.T ≤ max s.now s.hDl + s.T; have := h.an.2.2; omega }
+    exact { h1 with hd := fun _ => by show s.hAct + s.T ≤ max s.now s.hDl + s.T; have := h.an.2.2; omega,
+                    dh := fun _ => Nat.le_refl _ }
   · rw [if_neg hvt]
     obtain ⟨hc, hcr, hv⟩ := voteAs_facts h1 (i := HTTP) (by decide)
-    refine ⟨hc, hcr, ?_, ?_, ?_, h.rb, fun hh => by simp [voteAs, hb] at hh, h1.ra, h1.wa, ?_, h.rd, h.wd, ?_, h1.an, h.sub⟩
+    refine ⟨hc, hcr, ?_, ?_, ?_, h.rb, fun hh => by simp [voteAs, hb] at hh, h1.ra, h1.wa, ?_, h.rd, h.wd, ?_, h1.an, h.sub,
+      h1.dr, fun _ => Nat.le_refl _, h1.dw, h.ew⟩
     · rw [hv]; exact h.vr
     · rw [hv]; exact h.vw
     · rw [hv]; rfl
@@ -380,10 +397,11 @@ theorem core_fireWrite {s : St} (h : Core s) (he : s.wEnabled = true) : Core (fi
   unfold fireWrite
   by_cases hem : s.wRemotes.isEmpty = true
   · rw [if_pos hem]
-    exact { h1 with wd := fun hh => by simp at hh }
+    exact { h1 with }
   · rw [if_neg hem]
     obtain ⟨hc, hcr, hv⟩ := voteAs_facts h1 (i := WRITE) (by decide)
-    refine ⟨hc, hcr, ?_, ?_, ?_, h.rb, h.hb, h1.ra, ?_, h1.ha, h.rd, fun hh => by simp at hh, h.hd, h1.an, h.sub⟩
+    refine ⟨hc, hcr, ?_, ?_, ?_, h.rb, h.hb, h1.ra, ?_, h1.ha, h.rd, fun hh => by simp at hh, h.hd, h1.an, h.sub,
+      h1.dr, h1.dh, fun hh => by simp at hh, fun hh => by simp at hh⟩
     · rw [hv]; exact h.vr
     · rw [hv]; rfl
     · rw [hv]; exact h.vh
@@ -812,6 +830,235 @@ theorem run_app (s : St) (a b : List Op) : run s (a ++ b) = run (run s a) b := b
   simp [run, List.foldl_append]
 
 end busy
+
+/-! ### liveness: when nobody is busy and nothing happens for a full timeout, the runtime stops -/
+
+section live
+local macro "fld" : tactic => `(tactic| (first | rfl | (split <;> first | rfl | (split <;> first | rfl | (split <;> rfl)))))
+
+@[simp] theorem T_settle (s : St) : (settle s).T = s.T := by unfold settle; fld
+@[simp] theorem now_settle (s : St) : (settle s).now = s.now := by unfold settle; fld
+@[simp] theorem hDl_settle (s : St) : (settle s).hDl = s.hDl := by unfold settle; fld
+@[simp] theorem rDl_settle (s : St) : (settle s).rDl = s.rDl := by unfold settle; fld
+@[simp] theorem wDl_settle (s : St) : (settle s).wDl = s.wDl := by unfold settle; fld
+@[simp] theorem hVoted_settle (s : St) : (settle s).hVoted = s.hVoted := by unfold settle; fld
+@[simp] theorem rVoted_settle (s : St) : (settle s).rVoted = s.rVoted := by unfold settle; fld
+@[simp] theorem wVoted_settle (s : St) : (settle s).wVoted = s.wVoted := by unfold settle; fld
+@[simp] theorem wEnabled_settle (s : St) : (settle s).wEnabled = s.wEnabled := by unfold settle; fld
+
+/-- how often a `timeout(T, …)` that is re-armed on expiry can still fire before `target` (`T ≥ 100`) -/
+def mH (s : St) (now0 target : Nat) : Nat := if hDue s target then (target - max s.hDl now0) / 100 + 1 else 0
+def mR (s : St) (now0 target : Nat) : Nat := if rDue s target then (target - max s.rDl now0) / 100 + 1 else 0
+def mW (s : St) (target : Nat) : Nat := if wDue s target then 1 else 0
+
+structure Prog (s : St) (now0 target fuel : Nat) : Prop where
+  inv : RInv s
+  up : s.stop = none
+  hb : s.hBusy = false
+  rb : s.rBusy = false
+  t100 : 100 ≤ s.T
+  n0 : now0 ≤ s.now
+  hv : s.hVoted = true ∨ s.hDl ≤ target
+  rv : s.rVoted = true ∨ s.rDl ≤ target
+  wv : s.wVoted = true ∨ (s.wEnabled = true ∧ s.wDl ≤ target)
+  fuel : mH s now0 target + mR s now0 target + mW s target ≤ fuel
+
+theorem all_voted_flags {s : St} (h : Core s) (hr : s.rVoted = true) (hw : s.wVoted = true) (hh : s.hVoted = true) :
+    s.coord.flags = Coord.allMask 3 := by
+  have := (Coord.flags_all_iff h.c.inv).mpr (by
+    intro i hi
+    rw [h.c.n3] at hi
+    have : i = 0 ∨ i = 1 ∨ i = 2 := by omega
+    rcases this with rfl | rfl | rfl
+    · exact h.vr.trans hr
+    · exact h.vw.trans hw
+    · exact h.vh.trans hh)
+  rw [this, h.c.n3]
+
+/-- while the runtime is up and nobody is busy, some timer is due -/
+theorem prog_due {s : St} {now0 target fuel : Nat} (p : Prog s now0 target fuel) :
+    hDue s target = true ∨ rDue s target = true ∨ wDue s target = true := by
+  by_cases h1 : hDue s target = true
+  · exact Or.inl h1
+  by_cases h2 : rDue s target = true
+  · exact Or.inr (Or.inl h2)
+  by_cases h3 : wDue s target = true
+  · exact Or.inr (Or.inr h3)
+  exfalso
+  have hh : s.hVoted = true := by
+    rcases p.hv with h | h
+    · exact h
+    · simp [hDue, p.hb, h] at h1
+  have hr : s.rVoted = true := by
+    rcases p.rv with h | h
+    · exact h
+    · simp [rDue, p.rb, h] at h2
+  have hw : s.wVoted = true := by
+    rcases p.wv with h | h
+    · exact h
+    · simp [wDue, h.1, h.2] at h3
+  exact p.inv.st_none p.up (all_voted_flags p.inv.core hr hw hh)
+
+theorem pick_some_of_due {s : St} {target : Nat}
+    (h : hDue s target = true ∨ rDue s target = true ∨ wDue s target = true) : ∃ t, pick s target = some t := by
+  unfold pick
+  split
+  · exact ⟨_, rfl⟩
+  · split
+    · exact ⟨_, rfl⟩
+    · split
+      · exact ⟨_, rfl⟩
+      · rename_i h1 h2 h3
+        exfalso
+        -- nothing is due in the order of `pick`
+        cases hh : hDue s target <;> cases hr : rDue s target <;> cases hw : wDue s target <;>
+          simp_all <;> omega
+
+theorem pick_due {s : St} {target : Nat} {t : Task} (h : pick s target = some t) :
+    (t = .http → hDue s target = true) ∧ (t = .read → rDue s target = true) ∧ (t = .write → wDue s target = true) := by
+  unfold pick at h
+  split at h
+  · rename_i hc
+    cases h
+    simp only [Bool.and_eq_true] at hc
+    refine ⟨fun _ => hc.1.1, ?_, ?_⟩ <;> intro e <;> cases e
+  · split at h
+    · rename_i hc
+      cases h
+      simp only [Bool.and_eq_true] at hc
+      refine ⟨?_, fun _ => hc.1, ?_⟩ <;> intro e <;> cases e
+    · split at h
+      · rename_i hc
+        cases h
+        refine ⟨?_, ?_, fun _ => hc⟩ <;> intro e <;> cases e
+      · cases h
+
+theorem advLoop_stopped (fuel target : Nat) (s : St) (h : s.stop.isSome = true) : advLoop fuel target s = s := by
+  cases fuel <;> unfold advLoop <;> simp [h]
+
+theorem prog_fire {s : St} {now0 target fuel : Nat} (p : Prog s now0 target (fuel + 1)) {t : Task}
+    (hp : pick s target = some t) (hup : (settle (fire s t)).stop = none) :
+    Prog (settle (fire s t)) now0 target fuel := by
+  have hinv := rinv_fire p.inv p.up hp
+  have hdue := pick_due hp
+  have hT := p.t100
+  have hn0 := p.n0
+  have hfuel := p.fuel
+  cases t with
+  | http =>
+    have hd := hdue.1 rfl
+    have hdl : s.hDl ≤ target := by simp [hDue] at hd; exact hd.2
+    have e1 : (settle (fire s .http)).hDl = max s.now s.hDl + s.T := by
+      simp only [hDl_settle, fire]; unfold fireHttp; split <;> rfl
+    have e2 : (settle (fire s .http)).hVoted = true := by
+      simp only [hVoted_settle, fire]; unfold fireHttp; split
+      · assumption
+      · rfl
+    have e3 : (settle (fire s .http)).now = max s.now s.hDl := by
+      simp only [now_settle, fire]; unfold fireHttp; split <;> rfl
+    have eT : (settle (fire s .http)).T = s.T := by
+      simp only [T_settle, fire]; unfold fireHttp; split <;> rfl
+    have er : rDue (settle (fire s .http)) target = rDue s target ∧ (settle (fire s .http)).rDl = s.rDl ∧
+        (settle (fire s .http)).rVoted = s.rVoted := by
+      simp only [rDue, rBusy_settle, rDl_settle, rVoted_settle, fire]
+      unfold fireHttp; split <;> exact ⟨rfl, rfl, rfl⟩
+    have ew : wDue (settle (fire s .http)) target = wDue s target ∧ (settle (fire s .http)).wDl = s.wDl ∧
+        (settle (fire s .http)).wVoted = s.wVoted ∧ (settle (fire s .http)).wEnabled = s.wEnabled := by
+      simp only [wDue, wEnabled_settle, wDl_settle, wVoted_settle, fire]
+      unfold fireHttp; split <;> exact ⟨rfl, rfl, rfl, rfl⟩
+    refine ⟨hinv, hup, by simp [p.hb], by simp [p.rb], by rw [eT]; exact hT, by rw [e3]; omega, Or.inl e2,
+      by rw [er.2.2, er.2.1]; exact p.rv, by rw [ew.2.2.1, ew.2.2.2, ew.2.1]; exact p.wv, ?_⟩
+    have hmr : mR (settle (fire s .http)) now0 target = mR s now0 target := by simp only [mR, er.1, er.2.1]
+    have hmw : mW (settle (fire s .http)) target = mW s target := by simp only [mW, ew.1]
+    have hmh0 : mH s now0 target = (target - max s.hDl now0) / 100 + 1 := by simp only [mH, hd, if_true]
+    have hmh : mH (settle (fire s .http)) now0 target + 1 ≤ mH s now0 target := by
+      rw [hmh0]
+      unfold mH
+      split
+      · rename_i hd'
+        have hdl' : (settle (fire s .http)).hDl ≤ target := by simp [hDue] at hd'; rw [hDl_settle]; exact hd'.2
+        rw [e1] at hdl' ⊢
+        omega
+      · omega
+    rw [hmr, hmw]; omega
+  | read =>
+    have hd := hdue.2.1 rfl
+    have hdl : s.rDl ≤ target := by simp [rDue] at hd; exact hd.2
+    have e1 : (settle (fire s .read)).rDl = max s.now s.rDl + s.T := by simp only [rDl_settle, fire]; rfl
+    have e2 : (settle (fire s .read)).rVoted = true := by simp only [rVoted_settle, fire]; rfl
+    have e3 : (settle (fire s .read)).now = max s.now s.rDl := by simp only [now_settle, fire]; rfl
+    have eT : (settle (fire s .read)).T = s.T := by simp only [T_settle, fire]; rfl
+    have eh : hDue (settle (fire s .read)) target = hDue s target ∧ (settle (fire s .read)).hDl = s.hDl ∧
+        (settle (fire s .read)).hVoted = s.hVoted := by
+      simp only [hDue, hBusy_settle, hDl_settle, hVoted_settle, fire]; exact ⟨rfl, rfl, rfl⟩
+    have ew : wDue (settle (fire s .read)) target = wDue s target ∧ (settle (fire s .read)).wDl = s.wDl ∧
+        (settle (fire s .read)).wVoted = s.wVoted ∧ (settle (fire s .read)).wEnabled = s.wEnabled := by
+      simp only [wDue, wEnabled_settle, wDl_settle, wVoted_settle, fire]; exact ⟨rfl, rfl, rfl, rfl⟩
+    refine ⟨hinv, hup, by simp [p.hb], by simp [p.rb], by rw [eT]; exact hT, by rw [e3]; omega,
+      by rw [eh.2.2, eh.2.1]; exact p.hv, Or.inl e2, by rw [ew.2.2.1, ew.2.2.2, ew.2.1]; exact p.wv, ?_⟩
+    have hmh : mH (settle (fire s .read)) now0 target = mH s now0 target := by simp only [mH, eh.1, eh.2.1]
+    have hmw : mW (settle (fire s .read)) target = mW s target := by simp only [mW, ew.1]
+    have hmr0 : mR s now0 target = (target - max s.rDl now0) / 100 + 1 := by simp only [mR, hd, if_true]
+    have hmr : mR (settle (fire s .read)) now0 target + 1 ≤ mR s now0 target := by
+      rw [hmr0]
+      unfold mR
+      split
+      · rename_i hd'
+        have hdl' : (settle (fire s .read)).rDl ≤ target := by simp [rDue] at hd'; rw [rDl_settle]; exact hd'.2
+        rw [e1] at hdl' ⊢
+        omega
+      · omega
+    rw [hmh, hmw]; omega
+  | write =>
+    have hd := hdue.2.2 rfl
+    have hne : ¬ s.wRemotes.isEmpty = true := by
+      intro hem
+      have : (settle (fire s .write)).stop ≠ none := by
+        simp only [fire]
+        have hst : (fireWrite s).stop.isSome = true := by unfold fireWrite; rw [if_pos hem]; rfl
+        unfold settle; rw [if_pos hst]
+        intro hh; rw [hh] at hst; cases hst
+      exact this hup
+    have efw : fire s .write = { voteAs { s with now := max s.now s.wDl } WRITE with
+        wVoted := true, wEnabled := false, wSaw := voteTold { s with now := max s.now s.wDl } WRITE } := by
+      simp only [fire]; unfold fireWrite; rw [if_neg hne]
+    have e2 : (settle (fire s .write)).wVoted = true := by rw [wVoted_settle, efw]
+    have e4 : (settle (fire s .write)).wEnabled = false := by rw [wEnabled_settle, efw]
+    have e3 : (settle (fire s .write)).now = max s.now s.wDl := by rw [now_settle, efw]; rfl
+    have eT : (settle (fire s .write)).T = s.T := by rw [T_settle, efw]; rfl
+    have eh : hDue (settle (fire s .write)) target = hDue s target ∧ (settle (fire s .write)).hDl = s.hDl ∧
+        (settle (fire s .write)).hVoted = s.hVoted := by
+      simp only [hDue, hBusy_settle, hDl_settle, hVoted_settle]; rw [efw]; exact ⟨rfl, rfl, rfl⟩
+    have er : rDue (settle (fire s .write)) target = rDue s target ∧ (settle (fire s .write)).rDl = s.rDl ∧
+        (settle (fire s .write)).rVoted = s.rVoted := by
+      simp only [rDue, rBusy_settle, rDl_settle, rVoted_settle]; rw [efw]; exact ⟨rfl, rfl, rfl⟩
+    refine ⟨hinv, hup, by simp [p.hb], by simp [p.rb], by rw [eT]; exact hT, by rw [e3]; omega,
+      by rw [eh.2.2, eh.2.1]; exact p.hv, by rw [er.2.2, er.2.1]; exact p.rv, Or.inl e2, ?_⟩
+    have hmh : mH (settle (fire s .write)) now0 target = mH s now0 target := by simp only [mH, eh.1, eh.2.1]
+    have hmr : mR (settle (fire s .write)) now0 target = mR s now0 target := by simp only [mR, er.1, er.2.1]
+    have hmw0 : mW s target = 1 := by simp only [mW, hd, if_true]
+    have hmw : mW (settle (fire s .write)) target = 0 := by unfold mW wDue; rw [e4]; simp
+    rw [hmh, hmr, hmw]; omega
+
+theorem prog_advLoop (now0 target : Nat) (fuel : Nat) {s : St} (p : Prog s now0 target fuel) :
+    (advLoop fuel target s).stop.isSome = true := by
+  induction fuel generalizing s with
+  | zero =>
+    exfalso
+    have hf := p.fuel
+    rcases prog_due p with h | h | h
+    · simp [mH, h] at hf
+    · simp [mR, h] at hf
+    · simp [mW, h] at hf
+  | succ fuel ih =>
+    obtain ⟨t, hp⟩ := pick_some_of_due (prog_due p)
+    unfold advLoop
+    simp only [p.up, Option.isSome_none, Bool.false_eq_true, if_false, hp]
+    cases hst : (settle (fire s t)).stop with
+    | some st => rw [advLoop_stopped _ _ _ (by rw [hst]; rfl), hst]; rfl
+    | none => exact ih (prog_fire p hp hst)
+
+end live
 
 /-- the timeout is a constant of the run -/
 theorem T_run : ∀ (s : St) (ops : List Op), (run s ops).T = s.T := by
